@@ -19,6 +19,7 @@ import (
 	"verifharness/kit"
 	"verifharness/model"
 	"verifharness/respx"
+	"verifharness/schedx"
 )
 
 func TestMain(m *testing.M) { kit.Main(m, "C06") }
@@ -594,5 +595,5 @@ func TestBatches(t *testing.T) {
 }
 
 func TestReplay(t *testing.T) {
-	kit.Replay[Batch](t, map[string]func(kit.RawCase) kit.Outcome{"batch": kit.ReplaySub(execBatch)})
+	kit.Replay[Batch](t, map[string]func(kit.RawCase) kit.Outcome{"batch": kit.ReplaySub(execBatch), "sched": kit.ReplaySub(schedx.Exec)})
 }
